@@ -329,6 +329,22 @@ def _gen_round(rng, quick: bool, lim: Dict, rnd: int) -> List[Dict]:
         for fill in (True, False, None):
             cond = numpy.full(cshape, bool(fill)) if fill is not None else (numpy.arange(S.size_of(cshape)).reshape(cshape) % 2 == 1)
             add("where", [P(s1, "a", names=("q0", "q1")), P(s2, "b", names=("q1",))], {"cond": cond.tolist()}, tag="-cond%s" % ("T" if fill else "F" if fill is False else "M"))
+    # operands with many stored terms (70), storage order shuffled / descending: joins must match terms by exponent, not by position
+    def many(prefix, shape, order, names=("q0",)):
+        rows = [[e] + [0] * (len(names) - 1) for e in range(70)]
+        if order == "desc":
+            rows = rows[::-1]
+        elif order == "shuffled":
+            rng.shuffle(rows)
+        n_ = S.size_of(shape)
+        slots = [[((r[0] * 7 + i * 3) % 11) - 5 for i in range(n_)] for r in rows]
+        return {"kind": "poly", "names": list(names), "exps": rows, "shape": list(shape), "slots": slots, "mode": "raw"}
+
+    for order in ("desc", "shuffled"):
+        add("concatenate", [many("a", (2,), order), P((2,), "b", nterms=2, names=("q0",))], {"axis": 0}, tag="-idx-manyterms")
+        add("stack", [many("a", (2,), order), many("b", (2,), "asc")], {"axis": 0}, tag="-idx-manyterms")
+        add("where", [many("a", (2,), order), many("b", (2,), "desc")], {"cond": [True, False]}, tag="-idx-manyterms")
+        add("vstack", [many("a", (2,), order, names=("q0", "q1")), P((2,), "b", nterms=2, names=("q1",))], tag="-idx-manyterms")
     # less-used argument forms
     for f in ("atleast_1d", "atleast_2d", "atleast_3d"):
         add(f, [P((), "a"), P((2,), "b"), P((1, 2), "c", nterms=1)], {"multi": True}, tag="-idx-multi")
